@@ -101,7 +101,6 @@ Print Assumptions C34_arrival.
     from if the height is ahead of the node's; every other block stays, with
     the units found meanwhile filled in, and nothing is posted for it *)
 Theorem C34_missing_waits_then_requests : forall hs sh c p now st l,
-  c_noval c = false ->
   st_pend st = map (pd_of hs sh) l -> Forall ub_wf l -> Forall (ub_honest hs sh p) l ->
   tick_raw c p now st =
   match uscan hs sh p now (c_timeout c) l with
@@ -114,7 +113,6 @@ Print Assumptions C34_missing_waits_then_requests.
 
 (** the same for a single pending block, spelled out *)
 Theorem C34_single_block_life : forall hs sh c p now st u,
-  c_noval c = false ->
   st_pend st = [pd_of hs sh u] -> ub_wf u -> ub_honest hs sh p u ->
   tick_raw c p now st =
   if ub_done hs sh p u
